@@ -545,19 +545,22 @@ structure SymUnit (α : Type) where
     magnitude and its unsimplified dimensionality `[(unit object, exponent)]` -/
 inductive RegEntry (α : Type)
   | num (x : α)
+  /-- a float / NumPy number such as `1.0` or `np.int64(1)`: NOT the int `1` for the identity test `unit_registry[k] is integer_one` -/
+  | floatNum (x : α)
   | q (mag : α) (dimy : List (SymUnit α × Int))
   deriving DecidableEq, Repr
 
 /-- an entry of the serialised registry: `(1, 1)` or `(float(unit), symbol)` -/
 inductive HumanEntry (α : Type)
-  | one
+  | one (factor : α)                       -- `(factor, 1)`; `to_human_readable` only writes `(1, 1)`
   | fs (factor : α) (symbol : String)
   deriving DecidableEq, Repr
 
 /-- loop body of `unit_registry_to_human_readable` (units.py 215-223, after the fix that stores `.symbol`).  NOTE: only the NUMBER of distinct unit
     objects is checked; the exponent of a single one is dropped silently. -/
 def toHumanEntry : RegEntry α → Except Err (HumanEntry α)
-  | .num x => if x = ((1 : Nat) : α) then .ok .one else .error .attributeError   -- `x.dimensionality`
+  | .num x => if x = ((1 : Nat) : α) then .ok (.one ((1 : Nat) : α)) else .error .attributeError   -- `x.dimensionality`
+  | .floatNum _ => .error .attributeError            -- `is integer_one` is an identity test: 1.0 has no `.dimensionality`
   | .q mag dimy => match dimy with
     | [(u, _)] => .ok (.fs mag u.symbol)            -- `dim_list[0].symbol`
     | _ => .error .typeError               -- "Compound units not allowed"
@@ -573,7 +576,7 @@ def toHuman : List (RegEntry α) → Except Err (List (HumanEntry α))
 /-- loop body of `unit_registry_from_human_readable` (units.py 275-284).  `lookup` models
     `pq.Quantity(0, symbol).dimensionality` (the third-party unit-string parser): `none` = LookupError. -/
 def fromHumanEntry (lookup : String → Option (List (SymUnit α × Int))) : HumanEntry α → Except Err (RegEntry α)
-  | .one => .ok (.num (((1 : Nat) : α) * ((1 : Nat) : α)))           -- factor * 1
+  | .one factor => .ok (.num (factor * ((1 : Nat) : α)))           -- `factor * unit_quants[0]` with `unit_quants = [1]`
   | .fs factor sym => match lookup sym with
     | none => .error .lookupError
     | some [(u, _)] => .ok (.q factor [(u, 1)])            -- factor * unit_quants[0]
@@ -601,6 +604,7 @@ def fromHumanOpt (lookup : String → Option (List (SymUnit α × Int))) :
 /-- the quantity denoted by a registry entry: `mag * ∏ unit_i ** e_i` -/
 def RegEntry.value : RegEntry α → PyVal α
   | .num x => .num x
+  | .floatNum x => .num x
   | .q mag dimy => .qty ⟨mag, dimy.foldl (fun acc p => acc.mul (p.1.unit.pow p.2)) Unit.one⟩
 
 /-! ### NumPy-like helpers (units.py 475-577, 683-728) and the `Backend` wrapper (598-651) -/
